@@ -180,6 +180,54 @@ def shard(ctx):
                     ["".join(l) for l in cnf], got, obs.node_status(tree), e),
                     {"kind": "default", "rules": text, "data": DOCS, "expected": e})
 
+    # ---------------- (A2) references to a rule name with 1..3 definitions: every status assignment x 4 reference forms x user before/after
+    for k in (1, 2, 3):
+        for combo in itertools.product("PFS", repeat=k):
+            for users_first in (False, True):
+                idx += 1
+                if not ctx.mine(idx):
+                    continue
+                eff = next((ST[c] for c in combo if c != "S"), "SKIP")
+                defs = "".join("rule tgt {\n    %s\n}\n" % LEAF[c] for c in combo)
+                users = ("rule u_c {\n    tgt\n}\nrule u_n {\n    not tgt\n}\nrule u_w when tgt {\n    %A == 1\n}\n"
+                         "rule u_wn when !tgt {\n    %A == 1\n}\nrule u_or {\n    tgt or %A == 2\n}\n")
+                text = PRELUDE + (users + defs if users_first else defs + users)
+                want = {"u_c": "PASS" if eff == "PASS" else "FAIL", "u_n": "FAIL" if eff == "PASS" else "PASS",
+                        "u_w": "PASS" if eff == "PASS" else "SKIP", "u_wn": "SKIP" if eff == "PASS" else "PASS",
+                        "u_or": "PASS" if eff == "PASS" else "FAIL"}
+                case = {"kind": "gadget", "rules": text, "data": DOCS, "expected": want}
+                res = ctx.w.run({"k": "rc", "data": DOCS, "rules": text, "verbose": True})
+                ctx.res.cases += 1
+                if res.get("r") != "ok":
+                    if core.crash_signature(res):
+                        ctx.inconclusive("crash")
+                    else:
+                        ctx.violation("named-ref:evaluation-error", "reference gadget failed: %s" % res.get("err", "")[:200], case)
+                    continue
+                tree = json.loads(res["out"])
+                tc = check_tree(ctx, tree, text)
+                for sig, msg in tc.problems:
+                    ctx.violation("tree:" + sig, msg + "\n" + text, case)
+                got = {}
+                for nme, st_ in obs.tree_rule_statuses(tree):
+                    got.setdefault(nme, []).append(st_)
+                ctx.res.counts["named_reference_gadgets"] += 1
+                ctx.res.distinct.add(("named-ref-gadget", combo, users_first))
+                if got.get("tgt") != [ST[c] for c in combo]:
+                    ctx.violation("named-ref:definitions", "definitions of tgt forced to %s are reported %s" % ([ST[c] for c in combo], got.get("tgt")), case)
+                    continue
+                bad = sorted(u for u in want if got.get(u) != [want[u]])
+                if bad and {"P", "F"} <= set(combo):
+                    # definitions that disagree (PASS and FAIL): the statement does not say which one "the rule" is; any ONE of them, used consistently, is accepted
+                    other = {u: {"PASS": "FAIL", "FAIL": "PASS"}.get(w, w) if u in ("u_c", "u_n", "u_or") else {"PASS": "SKIP", "SKIP": "PASS"}[w] for u, w in want.items()}
+                    if all(got.get(u) == [other[u]] for u in other):
+                        ctx.res.counts["named_reference_later_definition_decides"] += 1
+                        bad = []
+                if bad:
+                    ctx.violation("named-ref:%s:%s" % (bad[0], "user-first" if users_first else "user-last"),
+                                  "definitions of tgt are %s (the first that is not SKIP decides: %s) but %s is %s, expected %s" % (
+                                      [ST[c] for c in combo], eff, bad[0], got.get(bad[0]), want[bad[0]]), case)
+
     # ---------------- (B) random programs
     n = 250 if ctx.quick else 12000
     rng = ctx.rng("B")
